@@ -212,18 +212,19 @@ func (c19Driver) Gen(r *Rand, tier string) []json.RawMessage {
 // ---------------------------------------------------------------- processes
 
 type c19Proc struct {
-	id      int
-	fam     string // Coq family
-	kind    string
-	long    bool
-	cmd     *exec.Cmd
-	pid     int
-	port    int
-	errPath string
-	mark    string
-	gofile  string
-	done    chan struct{}
-	sig     bool // the harness has sent this process a signal
+	id       int
+	fam      string // Coq family
+	kind     string
+	long     bool
+	cmd      *exec.Cmd
+	pid      int
+	port     int
+	errPath  string
+	mark     string
+	gofile   string
+	done     chan struct{}
+	sig      bool // the harness has sent this process a signal
+	timedOut bool // it neither served nor exited within the time limit
 }
 
 type c19Env struct {
@@ -453,6 +454,7 @@ func (e *c19Env) waitReady(p *c19Proc) bool {
 		time.Sleep(4 * time.Millisecond)
 	}
 	p.destroy()
+	p.timedOut = true
 	return false
 }
 
@@ -651,6 +653,11 @@ func (c19Driver) Run(raw json.RawMessage) (res Case) {
 		}
 	}
 
+	// A command that does not come to an end within its time limit is killed and the case ends there, the
+	// unfinished step left out: what was observed before stands on its own. (A second process that got past the
+	// lock blocks on the search index's file lock; the step that let it past has been recorded already. On an
+	// overloaded machine a plain command can take that long, too.)
+steps:
 	for _, s := range in.Steps {
 		switch s.Op {
 		case "break":
@@ -699,7 +706,11 @@ func (c19Driver) Run(raw json.RawMessage) (res Case) {
 			p := e.spawn(fam, kind, false, args, nil)
 			if !p.waitExit(20 * time.Second) {
 				p.destroy()
-				tag("hang:cmd-" + kind)
+				if busy != nil {
+					busy.Close()
+				}
+				tag("truncated:cmd-" + kind)
+				break steps
 			}
 			if d := time.Since(t0); d > e.slowest {
 				e.slowest = d
@@ -731,6 +742,10 @@ func (c19Driver) Run(raw json.RawMessage) (res Case) {
 			situation()
 			p := e.startLong(s.Kind)
 			rdy := e.waitReady(p)
+			if p.timedOut {
+				tag("truncated:hold-" + s.Kind)
+				break steps
+			}
 			x, m := "XOk", "MNone"
 			if rdy {
 				e.ready = append(e.ready, p)
@@ -786,7 +801,10 @@ func (c19Driver) Run(raw json.RawMessage) (res Case) {
 				_ = p.cmd.Process.Kill()
 			}
 			if !p.waitExit(60 * time.Second) {
-				tag("hang:end-" + how + "-" + p.kind)
+				p.destroy()
+				e.dropReady(p)
+				tag("truncated:end-" + how + "-" + p.kind)
+				break steps
 			}
 			p.destroy()
 			e.dropReady(p)
